@@ -23,7 +23,7 @@ RULE = ('systems H x = b with small-integer H = A^T A + D (real SPD, size 1-6), 
         'x0 in {None, zero, exact solution, random}, max_iterations 0..N+2, tolerance in {0, dyadic values that do / do not trigger}; '
         'plus non-symmetric real H (residual identity only), symmetric indefinite H with <p,Hp> = 0 in the first step (division by zero '
         '<=> non-finite result) and shape mismatches. Non-trivial = at least one iteration is carried out; distinct by case hash.')
-TRUSTED_BASE = ['realification of complex Hermitian systems done by the harness (not a Coq lemma)',
+TRUSTED_BASE = ['the harness function realify_matrix implements realify_mat of Proofs/CGProofsRealify.v (whose correctness is proved: C06_realify_*)',
                 'numpy.linalg (solve, qr, lstsq) in the implementation-level oracle',
                 'einops/torch.einsum as the operator applied by EinsumOp (observed, not modelled beyond matrix-vector product)']
 ASSUMPTIONS = ['float64 rounding of cg on systems with condition number <= ~1e3 stays below 1e-9 relative (observed <= 1e-12)',
@@ -467,7 +467,7 @@ def extra_checks(ctx):
 
 FAMILIES = [
     Family('cg_systems', gen_systems, impl_cg, coq_cg, PREAMBLE, compare_cg, oracle_cg, nontrivial=_nontrivial, descr=descr_cg, shard=12,
-           theorem='C06_residual, C06_finite, C06_fixed_point, C06_conjugate, C06_optimal, C06_monotone'),
+           theorem='C06_residual, C06_finite, C06_fixed_point_*, C06_conjugate, C06_orthogonal, C06_krylov, C06_optimal, C06_monotone, C06_within_n'),
     Family('cg_degenerate', gen_degenerate, impl_cg, coq_cg, PREAMBLE, compare_cg, oracle_cg, nontrivial=_nontrivial, descr=descr_cg, shard=12,
            theorem='C06_residual (any linear H), explicit division by zero <=> non-finite'),
 ]
